@@ -5,7 +5,7 @@ Tie: the harness draws a path template (directory levels with year/year2, month,
 names, user placeholders, wildcards), renders a population of files with its OWN renderer into a temporary
 directory, runs the real FileSet (find with every option, `t in fileset`, len) and evaluates the model and the
 brute-force specification on the same population inside Coq (vm_compute).  Whenever the hypotheses of
-find_sound_complete hold for the case (checked by Coq: no_gaps, well placed, short, valid, lookback_ok) the
+find_sound_complete hold for the case (checked by Coq: no_gaps, well placed, short, valid, well-formed period) the
 specification decides: a disagreement is a failing input of the property.  Outside the hypotheses the real
 code is compared with the algorithmic model only (kind "correspondence").
 
@@ -21,6 +21,12 @@ Extension (stability, time bins, cost):
    group labels (the trusted Grouper, called by the harness on the same start times) must be the left edges.
  * the algorithmic model is evaluated only where it decides (outside the hypotheses) or on a sample: inside them
    find_sound_complete makes it equal to the specification, and the directory pruning is the expensive part.
+ * extension 2 (look-back near datetime.min, /repo bd49e45): the look-back `start - P` is clamped at datetime.min, the
+   theorems carry no hypothesis on the start any more.  A directed, seed-independent stream `nearmin` asks every kind
+   of directory layout ({year}, {year}/{month}, {year}/{month}/{day}, {year}/{doy}, {sat}/{year}, {sat} only, with
+   files in year 1, year 2 and ordinary years) for periods that start at datetime.min + 1 us / 1 s / 1 day / P - 1 us /
+   P / P + 1 day (P = the look-back of the layout); they are inside the hypotheses, so the specification decides: an
+   OverflowError (the code before bd49e45) or a lost file is a failing input.
 """
 import datetime as dt
 import os
@@ -397,6 +403,109 @@ def gen_case(rng, k, stream="main"):
     return case
 
 
+# ----------------------------------------------------------------------------- directed: periods near datetime.min
+
+def _us(y, mo, d, h=0, mi=0):
+    return to_us(dt.datetime(y, mo, d, h, mi))
+
+
+NEARMIN_LAYOUTS = [
+    # (name, directory chunks); the file part is always {year}{month}{day}T{hour}{minute}-{end ...}.dat (+ {sat})
+    ("year", [[["t", "year"]]]),
+    ("year-month", [[["t", "year"]], [["t", "month"]]]),
+    ("year-month-day", [[["t", "year"]], [["t", "month"]], [["t", "day"]]]),
+    ("year-doy", [[["t", "year"]], [["t", "doy"]]]),
+    ("yearmonth-day", [[["lit", "y"], ["t", "year"], ["lit", "-"], ["t", "month"]], [["t", "day"]]]),
+    ("sat-year", [[["u", "sat"]], [["t", "year"]]]),
+    ("sat", [[["u", "sat"]]]),                      # user placeholder only: P = 366 days, no temporal pruning
+    ("lit-year-month", [[["lit", "data"]], [["t", "year"]], [["t", "month"]]]),
+]
+
+
+def nearmin_cases(first_id, zip_too=False):
+    """Seed-independent.  For every layout: files in year 1 (the first at datetime.min itself, files crossing the first
+    midnight / month end / year end, one lasting exactly one look-back P), in year 2 and in ordinary years; periods
+    starting within one look-back of datetime.min and just outside; with and without exclusions."""
+    day = DAY_US
+    fp = [["t", "year"], ["t", "month"], ["t", "day"], ["lit", "T"], ["t", "hour"], ["t", "minute"], ["lit", "-"],
+          ["t", "end_year"], ["t", "end_month"], ["t", "end_day"], ["lit", "T"], ["t", "end_hour"], ["t", "end_minute"]]
+    cases = []
+    for name, chunks in NEARMIN_LAYOUTS:
+        users = ["sat"] if any(t[0] == "u" for ch in chunks for t in ch) else []
+        filepart = ([["u", "sat"], ["lit", "_"]] if not users and name == "year-month" else []) + fp + [["lit", ".dat"]]
+        if filepart[0][0] == "u":
+            users = ["sat"]
+        for variant in ("plain", "excl") + (("zip",) if zip_too else ()):
+            case = {"id": first_id + len(cases), "stream": "nearmin", "chunks": chunks, "filepart": filepart,
+                    "file_res": "minute", "end_style": "full", "time_coverage": None, "zip": variant == "zip",
+                    "nearmin_layout": name}
+            P = lookback_us(case)
+            spans = [(0, 30 * 60 * 10**6),                                   # starts at datetime.min itself
+                     (_us(1, 1, 1, 12), _us(1, 1, 1, 13)),
+                     (_us(1, 1, 1, 23), _us(1, 1, 2, 1)),                    # crosses the first midnight
+                     (_us(1, 1, 2, 0), _us(1, 1, 2, 1)),
+                     (_us(1, 1, 31, 23, 30), _us(1, 2, 1, 0, 30)),           # crosses the first month end
+                     (_us(1, 2, 1, 0), _us(1, 2, 1, 6)),
+                     (_us(1, 12, 31, 23, 30), _us(2, 1, 1, 0, 30)),          # crosses the first year end
+                     (_us(2, 1, 1, 0), _us(2, 1, 1, 1)),
+                     (_us(2, 1, 2, 0), _us(2, 1, 2, 0)),                     # zero length, at datetime.min + 366 days
+                     (_us(2, 6, 30, 12), _us(2, 6, 30, 18)),
+                     (_us(2018, 3, 5, 12), _us(2018, 3, 5, 13)),
+                     (_us(2019, 12, 31, 23), _us(2020, 1, 1, 1))]
+            # files that last exactly one look-back: from the first directory into the window of a late start
+            spans.append((6 * 3600 * 10**6, 6 * 3600 * 10**6 + P))
+            if P >= 31 * day:
+                spans.append((_us(1, 1, 20, 0), _us(1, 1, 20, 0) + P - 60 * 10**6))
+            if P >= 366 * day:
+                spans.append((_us(1, 12, 31, 22), _us(2, 1, 2, 6)))          # directory 0001, still running at min + P
+            files, seen = [], set()
+            for k, (a, b) in enumerate(spans):
+                f = {"t0": a, "t1": b, "attrs": {u: USER_VALUES[u][k % 3] for u in users}, "wild": ""}
+                pth = rel_path(case, f)
+                if pth not in seen:
+                    seen.add(pth)
+                    files.append(f)
+            case["files"] = files
+            case["noise"] = variant == "excl"
+            case["exclude_names"] = [1] if variant == "excl" else []
+            case["exclude_periods"] = [[0, 10 * 60 * 10**6], [_us(1, 1, 2, 0, 30), _us(1, 1, 2, 0, 30)]] \
+                if variant == "excl" else []
+            starts = [1, 10**6, day, P - 1, P, P + day, 12 * 3600 * 10**6 + 60 * 10**6, 365 * day + 600 * 10**6, 0]
+            ends_of = lambda a: [a + 1, a + 3600 * 10**6, a + 2 * day, 2 * P + day, None]  # noqa
+            qs = []
+            for i, a in enumerate(sorted(set(starts))):
+                for j, b in enumerate(ends_of(a)):
+                    bundle = [None, None, 2, "1D", None][(i + j) % 5] if variant != "plain" else None
+                    if b is None and isinstance(bundle, str):
+                        bundle = 3            # (daily bins from year 1 to 2020: pandas walks 739 000 empty groups, 4 s)
+                    filt = None
+                    if users and (i + 2 * j) % 7 == 3:
+                        filt = {"sat": ["noaa", "snpp"]} if j % 2 else {"!sat": "metop"}
+                    qs.append({"start": a, "end": b, "filters": filt, "sort": True, "bundle": bundle,
+                               "only_path": False, "nfe": (i + j) % 4 == 0})
+            qs.append({"start": 10**6, "end": 10**6, "filters": None, "sort": True, "bundle": None,
+                       "only_path": False, "nfe": False})                          # empty period: ValueError, not Overflow
+            case["queries"] = qs
+            case["contains"] = [1, 10**6, 15 * 60 * 10**6, 12 * 3600 * 10**6 + 30 * 60 * 10**6, day - 1, day, P - 1, P,
+                                _us(1, 12, 31, 23, 45)]
+            cases.append(case)
+    return cases
+
+
+def near_min_stats(cases):
+    n = clamp = 0
+    for c in cases:
+        P = lookback_us(c)
+        if P is None:
+            continue
+        for q in c["queries"]:
+            a = q["start"]
+            if a is not None and 0 < a < 2 * P:
+                n += 1
+                clamp += int(a < P)
+    return n, clamp
+
+
 # ----------------------------------------------------------------------------- running the real code
 
 def classify_exc(e):
@@ -686,6 +795,8 @@ def compare_case(ctx, case, obs, val, nontrivial, stats):
                 f"{q['end'] and to_dt(q['end'])}, sort={q['sort']}, bundle={q['bundle']!r}, filters={q['filters']}, "
                 f"no_files_error={q['nfe']})" + (" with exclude list" if excluded_cfg else ""))
         sub = dict(case, queries=[q], contains=[])
+        P_case = lookback_us(case)
+        near_min = bool(P_case and q["start"] is not None and 0 < q["start"] < P_case)
         if "err" in o:
             if exp_err is not None and o["err"] == exp_err:
                 continue
@@ -694,7 +805,8 @@ def compare_case(ctx, case, obs, val, nontrivial, stats):
             ctx.fail(kind, f"{desc} raised {o['err']}; expected " +
                      (exp_err or f"the files {[rel_path(case, case['files'][i]) for i in exp_ids][:6]}"),
                      case=sub, impl=o, model=exp_ids, signature="find-raises-" + o["err"].split(":")[0]
-                     + ("-strbundle" if isinstance(q["bundle"], str) and o["err"].startswith("Other") else lc))
+                     + ("-strbundle" if isinstance(q["bundle"], str) and o["err"].startswith("Other") else
+                        "@start-within-one-look-back-of-datetime.min" if near_min and o["err"] == "OverflowErr" else lc))
             continue
         if exp_err is not None:
             ctx.fail(kind, f"{desc} returned files but {exp_err} was expected", case=sub, impl=o, signature="find-no-error")
@@ -849,7 +961,7 @@ def _run_impl_chunk(chunk):
 def is_full(ctx, case):
     """is the algorithmic model evaluated although the specification decides?  always in the quick tier and in a
     replay, for every fourth case in the thorough tier (find_sound_complete makes it redundant)"""
-    return (not ctx.thorough) or case["id"] % 4 == 0
+    return (not ctx.thorough) or case["id"] % 4 == 0 or case.get("stream") == "nearmin"
 
 
 def check_cases(ctx, cases, name="find", stats=None, full=None):
@@ -1010,8 +1122,12 @@ def run(ctx):
         except ImportError:
             ctx.notes.append("fsspec zip file system not importable: zip tier skipped")
     stats = new_stats()
+    # directed, seed-independent: periods that start within one look-back of datetime.min (zip variants in thorough)
+    near = nearmin_cases(len(cases) + len(zips), zip_too=ctx.thorough and bool(zips))
     # local and zip trees in one pass: one pool of workers for the real code, one set of Coq shards beside it
-    nontrivial, n_hyp = check_cases(ctx, cases + zips, stats=stats)
+    nontrivial, n_hyp = check_cases(ctx, cases + zips + near, stats=stats)
+    zips = zips + [c for c in near if c["zip"]]
+    cases = cases + [c for c in near if not c["zip"]]
     ctx.log(f"compared: {ctx.cov['evaluations']} evaluations, {stats['tie_groups']} groups of equal coverage, "
             f"{stats['bins_compared']} time bins")
     check_single(ctx, ctx.n(20, 200))
@@ -1024,7 +1140,10 @@ def run(ctx):
     allc = cases + zips
     ctx.cov["input_distribution"] = {
         "cases": len(allc), "zip_cases": len(zips), "cases_inside_hypotheses": n_hyp,
-        "streams": {s: sum(1 for c in allc if c["stream"] == s) for s in ("main", "long", "gap", "bins")},
+        "streams": {s: sum(1 for c in allc if c["stream"] == s) for s in ("main", "long", "gap", "bins", "nearmin")},
+        "near_datetime_min": dict(zip(("find_calls_starting_within_two_lookbacks_of_datetime_min",
+                                       "of_which_within_one_lookback_(clamped)"), near_min_stats(allc)),
+                                  layouts=[n for n, _ in NEARMIN_LAYOUTS]),
         "directory_depth": {str(d): sum(1 for c in allc if len(c["chunks"]) == d) for d in range(0, 9)
                             if any(len(c["chunks"]) == d for c in allc)},
         "files_total": sum(len(c["files"]) for c in allc),
@@ -1042,7 +1161,7 @@ def run(ctx):
     ctx.assumptions += [
         "hypotheses of find_sound_complete, evaluated per case inside Coq: no_gaps layout, every file rendered into "
         "the directory of its start time, coverage no longer than one period of the finest directory level, valid "
-        "datetimes, start < end, start = datetime.min or start >= datetime.min + look-back, excluded periods well formed",
+        "datetimes, start < end <= datetime.max, excluded periods well formed",
         "a {doy} directory level is never above the {year} level (typhon needs the year to resolve the day of the "
         "year and raises KeyError otherwise; the Coq layout only sees doy as month + day)",
         "user placeholder values are alphabetic words none of which is a prefix of another (the black list uses re.match)",
